@@ -1,5 +1,5 @@
-// C37 — transaction pool bookkeeping is consistent under concurrency (part b + c; the event-level handler
-// exploration of TXPoolServer is a separate section of this driver, see server.go when present).
+// C37 — transaction pool bookkeeping is consistent under concurrency (part b + c; part (a), the event-level handler
+// exploration of TXPoolServer, is server.go).
 //
 // (b) The real txnpool/common.TXPool is built with `import "sync"` rewritten to the ssync shim, so every lock
 //
@@ -396,7 +396,12 @@ func main() {
 	r.Require("linearizable", "race_pass_clean_or_reported")
 	totalExec, totalPoints := 0, 0
 	outcomes := map[string]bool{}
-	for _, scp := range scenarios() {
+	onlyA := os.Getenv("VERIF_C37_PART") == "a" // development switch: part (a) alone (never used by ./check)
+	scs := scenarios()
+	if onlyA {
+		scs = nil
+	}
+	for _, scp := range scs {
 		for pin := uint16(0); pin < 3; pin++ {
 			sc := scp
 			pinned = pin
@@ -456,10 +461,14 @@ func main() {
 		}
 	}
 	r.Note("distinct_observed_outcomes", len(outcomes))
-	if len(outcomes) < 3*len(scenarios()) {
+	if len(outcomes) < 3*len(scs) {
 		r.HarnessError("vacuous: only %d distinct outcomes over %d executions", len(outcomes), totalExec)
 	}
 	// (c) separate free-running -race pass of the same bodies
+	if onlyA {
+		r.Class("linearizable")
+		r.Capped("parts (b),(c) skipped by VERIF_C37_PART=a")
+	}
 	cmd := exec.Command(ev.Root+"/.build/bin/c37race", "--race-pass")
 	cmd.Env = append(os.Environ(), "GORACE=halt_on_error=1 exitcode=66")
 	outb, err := cmd.CombinedOutput()
@@ -479,14 +488,19 @@ func main() {
 	default:
 		r.HarnessError("race pass failed: %v: %s", err, tail(so, 1500))
 	}
+	// (a) event-level exploration of the real TXPoolServer handlers (server.go)
+	srvStates, srvTrans := serverPart(r)
 	r.Assume("scheduling points = lock acquire/release (and operation boundaries); unsynchronised accesses are the job of the separate -race pass",
 		"RLock is enabled whenever no writer holds the lock (Go's writer preference is not modelled: superset of real schedules)",
 		"3 goroutines x <=2 operations per scenario, transactions forced to collide")
 	r.Finish(map[string]any{
-		"rule":                          fmt.Sprintf("%d scenarios; all schedules with <= %d preemptions (iterative context bounding, DFS over choice prefixes); every history checked for linearizability against a map model with output validation", len(scenarios()), bound),
-		"states":                        totalPoints,
-		"transitions":                   totalPoints,
-		"traces_validated_against_impl": totalExec,
+		"rule":                          fmt.Sprintf("(a) BFS over the real TXPoolServer/worker/TxActor handlers (submit net/http of 3 txs, worker dequeues, validator responses stateless|stateful x ok|err x height 1|2, timeout, getTxPool, verifyBlock, clean) from 6 initial configurations to depth %d, MAX_CAPACITY=2 MaxTxInBlock=1, oracle = no duplicate / capacity / fully verified / hand-out height and count / re-queue of stale txs / clean removes exactly the block / conservation; (b) ", r.QT(7, 10)) + fmt.Sprintf("%d scenarios; all schedules with <= %d preemptions (iterative context bounding, DFS over choice prefixes); every history checked for linearizability against a map model with output validation", len(scenarios()), bound),
+		"states":                        totalPoints + srvStates,
+		"transitions":                   totalPoints + srvTrans,
+		"traces_validated_against_impl": totalExec + srvTrans,
+		"server_states":                 srvStates,
+		"server_transitions":            srvTrans,
+		"schedule_points":               totalPoints,
 		"schedules":                     totalExec,
 		"preemption_bound":              bound,
 		"distinct_nontrivial":           len(outcomes),
